@@ -773,8 +773,9 @@ class S3ChunkStore(ChunkStore):
         md5_gen.update(chunk)
         md5 = base64.b64encode(md5_gen.digest())
         headers = {'Content-MD5': md5.decode()}
-        # Flatten the chunk: urllib3 >= 2 calls len() on each body part, which fails on 0-dim buffers
-        data = _Multipart([npy_header, memoryview(chunk.reshape(-1))])
+        # Flatten the chunk: urllib3 >= 2 calls len() on each body part, which fails on 0-dim buffers.
+        # View it as bytes: datetime64 / timedelta64 arrays cannot be exported as a typed buffer.
+        data = _Multipart([npy_header, memoryview(chunk.reshape(-1).view(np.uint8))])
         self.request('PUT', url, chunk_name=chunk_name, headers=headers, data=data)
 
     def mark_complete(self, array_name):
